@@ -49,6 +49,18 @@ class FakeBook:
         return False
 
 
+class FakeIo:
+    """rowio.io stand-in: open(path, 'rb') yields empty bytes (the workbook itself comes from the S-XLRD stub)"""
+
+    def __getattr__(self, name):
+        import io
+        return getattr(io, name)
+
+    def open(self, path, mode="r", **kw):
+        import io
+        return io.BytesIO(b"")
+
+
 class FakeXlrd:
     def __init__(self, book):
         import xlrd
@@ -77,7 +89,7 @@ def make_sheets():
             FakeSheet([], 0),
         ]
         book = FakeBook(sheets)
-        with patched(rf.smart_repr(), (rowio, "xlrd", FakeXlrd(book))):
+        with patched(rf.smart_repr(), (rowio, "xlrd", FakeXlrd(book)), (rowio, "io", FakeIo())):
             try:
                 got = list(rowio.excel_rows("stub.xlsx", k))
                 failed = False
@@ -202,6 +214,18 @@ def native_checks():
             if row != [exp]:
                 failures.append(dict(key="excel-date-rendering", what="%r rendered as %r, expected %r" % (v, row, exp),
                                      args=dict(value=repr(v))))
+        # the 1904 date system
+        n += 1
+        p = os.path.join(d, "dates1904.xlsx")
+        wb = xlsxwriter.Workbook(p, {"date_1904": True})
+        ws = wb.add_worksheet()
+        df4 = wb.add_format({"num_format": "yyyy-mm-dd hh:mm:ss"})
+        ws.write_datetime(0, 0, datetime.datetime(2015, 3, 14, 9, 26, 53), df4)
+        ws.write_datetime(1, 0, datetime.datetime(1999, 12, 31, 0, 0, 0), df4)
+        wb.close()
+        got = list(rowio.excel_rows(p, 1))
+        if got != [["2015-03-14 09:26:53"], ["1999-12-31 00:00:00"]]:
+            failures.append(dict(key="excel-date-rendering", what="workbook in the 1904 date system read as %r" % (got,), args=dict(datemode=1904)))
         # XlsxRowWriter round trip
         tables = [
             [["a", "b"], ["c", ""]],
